@@ -157,6 +157,22 @@ def crystals(rng):
     hexl = np.array([[ah, 0, 0], [-ah / 2, ah * np.sqrt(3) / 2, 0], [0, 0, ch]])
     wz = _cell(["Al", "Al", "N", "N"], [[1 / 3, 2 / 3, 0], [2 / 3, 1 / 3, .5], [1 / 3, 2 / 3, .375], [2 / 3, 1 / 3, .875]], hexl)
     out["wz"] = dict(unitcell=wz, supercell_matrix=np.diag([3, 1, 1]), primitive_matrix=None, nac=None)
+    # --- cells whose primitive-atom images are NOT one consecutive block in supercell order ---
+    # interleaved rock salt, 2x1x1 supercell of the conventional cell with the F primitive cell:
+    # s2p = [0,0,2,2,0,0,2,2,...], p2s = [0,2] (not a prefix)
+    out["nacl_F2"] = dict(unitcell=conv, supercell_matrix=np.diag([2, 1, 1]), primitive_matrix="F", nac=None)
+    # rock salt with grouped species (Na x4, Cl x4) and F: p2s = [0,4]
+    convg = _cell(["Na"] * 4 + ["Cl"] * 4,
+                  [[0, 0, 0], [0, .5, .5], [.5, 0, .5], [.5, .5, 0], [.5, .5, .5], [.5, 0, 0], [0, .5, 0], [0, 0, .5]],
+                  np.eye(3) * a)
+    out["naclg_F"] = dict(unitcell=convg, supercell_matrix=np.eye(3, dtype=int), primitive_matrix="F",
+                          nac=dict(born=born, dielectric=np.eye(3) * 2.4, factor=14.4))
+    # CsCl-like cell made body-centred by two interleaved species pairs: A B A' B' with I centring
+    bcc = _cell(["Na", "Cl", "Na", "Cl"], [[0, 0, 0], [.5, .5, 0], [.5, .5, .5], [0, 0, .5]], np.diag([a, a, a]))
+    out["ab_I"] = dict(unitcell=bcc, supercell_matrix=np.diag([1, 1, 2]), primitive_matrix="I", nac=None)
+    # non-diagonal supercell (det 2) of the two-atom polar cell
+    out["tetAB_nd"] = dict(unitcell=tet, supercell_matrix=[[1, 1, 0], [-1, 1, 0], [0, 0, 1]], primitive_matrix=None,
+                           nac=dict(born=bt, dielectric=np.diag([3.1, 3.1, 2.7]), factor=14.4))
     return out
 
 
@@ -196,8 +212,11 @@ def spring_forces(supercell, displacements, rng_seed=0, cutoff=0.62):
 
 QUICK_CONFIGS = [
     ("tric3", True, False, None), ("tric3", False, True, None),
-    ("tetAB", True, True, "wang"), ("tetAB", False, False, "gonze"), ("tetAB", True, True, None),
-    ("nacl_F", False, True, None),
+    ("tetAB", True, True, "wang"), ("tetAB", False, False, "gonze"),
+    ("nacl_F", False, True, None), ("nacl_F", True, False, "wang"),
+    ("nacl_F2", True, False, None), ("nacl_F2", True, True, None),
+    ("naclg_F", True, False, "gonze"), ("ab_I", False, False, None), ("ab_I", True, True, None),
+    ("tetAB_nd", True, True, None),
 ]
 
 
@@ -428,14 +447,25 @@ def scalar_sig(x):
 def select_cases(calls, rng, per_kernel=6, per_kernel_random=3):
     """Deduplicate recorded calls by (kernel, crystal, shapes, dtypes, flags); keep a
     bounded number per kernel; add randomised variants."""
-    by = {}
-    seen = set()
+    def weight(c):
+        # larger argument tuples first, then the ones with fewer zero entries (a list of general
+        # q-points before the single Gamma-point calls the Python layer also makes: at Gamma the
+        # phase factors are all 1 and index errors are invisible)
+        arrs = [x for x in c["args"] if isinstance(x, np.ndarray)]
+        return (sum(x.size for x in arrs), sum(int(np.count_nonzero(x)) for x in arrs if x.dtype.kind == "f"))
+
+    best = {}
+    order_keys = []
     for c in calls:
         key = (c["kernel"], c["tag"], tuple(str(m) for m in c["meta"]), tuple(scalar_sig(x) for x in c["args"]))
-        if key in seen:
-            continue
-        seen.add(key)
-        by.setdefault(c["kernel"], []).append(c)
+        if key not in best:
+            best[key] = c
+            order_keys.append(key)
+        elif weight(c) > weight(best[key]):
+            best[key] = c
+    by = {}
+    for key in order_keys:
+        by.setdefault(key[0], []).append(best[key])
     cases = []
     for k in KERNELS:
         lst = by.get(k, [])
@@ -446,7 +476,7 @@ def select_cases(calls, rng, per_kernel=6, per_kernel_random=3):
         # within one configuration the larger argument tuples first (lists of q-points
         # before the single Gamma-point calls the Python layer also makes)
         for t in tags:
-            tags[t].sort(key=lambda c: -sum(x.size for x in c["args"] if isinstance(x, np.ndarray)))
+            tags[t].sort(key=lambda c: tuple(-w for w in weight(c)))
         order = []
         while any(tags.values()):
             for t in list(tags):
@@ -463,3 +493,30 @@ def select_cases(calls, rng, per_kernel=6, per_kernel_random=3):
     for i, c in enumerate(cases):
         c["id"] = i
     return cases
+
+
+# kernels that take primitive/supercell index maps: (position of the s2p-like map, position of the p2s-like map)
+INDEX_MAPS = {
+    "transform_dynmat_to_fc": (6, 7),
+    "dynamical_matrices_with_dd_openmp_over_qpoints": (7, 8),
+    "derivative_dynmat": (8, 9),
+    "perm_trans_symmetrize_compact_fc": (2, 3),
+    "transpose_compact_fc": (2, 3),
+}
+
+
+def index_map_facts(call):
+    """Projection of a case for the coverage requirement of KernelRuns.tla:
+    noncontig  - the supercell atoms mapped to some primitive atom are not one consecutive block;
+    p2sprefix  - the p2s-like map is 0..n-1."""
+    pos = INDEX_MAPS.get(call["kernel"])
+    if pos is None:
+        return dict(indexmaps=False, noncontig=False, p2sprefix=True)
+    s2p = [int(x) for x in call["args"][pos[0]]]
+    p2s = [int(x) for x in call["args"][pos[1]]]
+    noncontig = False
+    for v in set(s2p):
+        ks = [k for k, x in enumerate(s2p) if x == v]
+        if ks[-1] - ks[0] + 1 != len(ks):
+            noncontig = True
+    return dict(indexmaps=True, noncontig=noncontig, p2sprefix=(p2s == list(range(len(p2s)))))
